@@ -36,3 +36,104 @@ Proof. reflexivity. Qed.
 Example FindHash_example :
   FindHash 5 (fun i => nth (Z.to_nat i) [3; 3; 7; 18446744073709551615; 18446744073709551615] 0) 7 = Ok (2, true).
 Proof. vm_compute. reflexivity. Qed.
+
+(* ------------------------------------------------------------------------------------------------
+   Find / GetBounds / IsSorted of the instantiated model *)
+From C17 Require Import Find_Proofs IsSorted_Proofs.
+
+Definition equivalence (eqf : Z -> Z -> bool) : Prop :=
+  (forall a, eqf a a = true) /\ (forall a b, eqf a b = true -> eqf b a = true) /\
+  (forall a b c, eqf a b = true -> eqf b c = true -> eqf a c = true).
+
+(* the hash function respects equalFunc, for array items and for the searched item (qh = hash of qx) *)
+Definition hash_consistent (count : Z) (hash item : Z -> Z) (eqf : Z -> Z -> bool) (qh qx : Z) : Prop :=
+  (forall i j, 0 <= i < count -> 0 <= j < count -> eqf (item i) (item j) = true -> hash i = hash j) /\
+  (forall i, 0 <= i < count -> eqf (item i) qx = true -> hash i = qh).
+
+Theorem IsSorted_iff count hash item eqf : 0 <= count -> equivalence eqf ->
+  exists b, IsSorted count hash item eqf = Ok b /\ (b = true <-> sorted_spec count hash item eqf).
+Proof. intros Hc (R & S & T). apply pvIsSorted_spec; assumption. Qed.
+
+Theorem IsSorted_empty hash item eqf : IsSorted 0 hash item eqf = Ok true.
+Proof. reflexivity. Qed.
+
+Lemma IsSorted_true_spec count hash item eqf : 0 <= count -> equivalence eqf ->
+  IsSorted count hash item eqf = Ok true -> sorted_spec count hash item eqf.
+Proof.
+  intros Hc He H. destruct (IsSorted_iff count hash item eqf Hc He) as (b & Eb & Hb).
+  rewrite H in Eb. inversion Eb; subst b. apply Hb. reflexivity.
+Qed.
+
+Theorem Find_eq_linear_scan count hash item eqf qh qx :
+  0 <= count < 2 ^ 62 -> (forall i, 0 <= i < count -> 0 <= hash i < 2 ^ 64) -> 0 <= qh < 2 ^ 64 ->
+  equivalence eqf -> hash_consistent count hash item eqf qh qx ->
+  IsSorted count hash item eqf = Ok true ->
+  exists r b, Find count hash item eqf qh qx = Ok (r, b) /\ 0 <= r <= count /\
+    (b = true -> r < count /\ eqf (item r) qx = true) /\
+    (b = true <-> exists i, 0 <= i < count /\ eqf (item i) qx = true).
+Proof.
+  intros Hc Hh Hq He (C1 & C2) Hs. pose proof (IsSorted_true_spec count hash item eqf ltac:(lia) He Hs) as (S1 & S2).
+  destruct He as (R & S & T).
+  apply (pvFind_spec pvMultShift pvGetStepCount pvCompare MS_inst stepcount_range compare_spec
+           count hash item eqf qh qx); assumption.
+Qed.
+
+Theorem GetBounds_eq_linear_scan count hash item eqf qh qx :
+  0 <= count < 2 ^ 62 -> (forall i, 0 <= i < count -> 0 <= hash i < 2 ^ 64) -> 0 <= qh < 2 ^ 64 ->
+  equivalence eqf -> hash_consistent count hash item eqf qh qx ->
+  IsSorted count hash item eqf = Ok true ->
+  exists b e, GetBounds count hash item eqf qh qx = Ok (b, e) /\ 0 <= b <= e /\ e <= count /\
+    (forall i, 0 <= i < count -> (b <= i < e <-> eqf (item i) qx = true)).
+Proof.
+  intros Hc Hh Hq He (C1 & C2) Hs. pose proof (IsSorted_true_spec count hash item eqf ltac:(lia) He Hs) as (S1 & S2).
+  destruct He as (R & S & T).
+  apply (pvGetBounds_spec pvMultShift pvGetStepCount pvCompare MS_inst stepcount_range compare_spec
+           count hash item eqf qh qx); assumption.
+Qed.
+
+Theorem Find_empty hash item eqf qh qx : Find 0 hash item eqf qh qx = Ok (0, false).
+Proof. reflexivity. Qed.
+Theorem GetBounds_empty hash item eqf qh qx : GetBounds 0 hash item eqf qh qx = Ok (0, 0).
+Proof. reflexivity. Qed.
+
+Lemma Zeqb_equivalence : equivalence Z.eqb.
+Proof.
+  split; [apply Z.eqb_refl|]. split.
+  - intros a b H. apply Z.eqb_eq in H. subst. apply Z.eqb_refl.
+  - intros a b c H1 H2. apply Z.eqb_eq in H1. apply Z.eqb_eq in H2. subst. apply Z.eqb_refl.
+Qed.
+
+(* ---- the checker that is run on the real output of Sort / SortPrehashed (elements = (hash, item id)) ---- *)
+From C17 Require Import Checker.
+From Coq Require Import Permutation.
+Definition hash_of (l : list (Z * Z)) : Z -> Z := fun i => fst (nth (Z.to_nat i) l (0, 0)).
+Definition item_of (l : list (Z * Z)) : Z -> Z := fun i => snd (nth (Z.to_nat i) l (0, 0)).
+Definition len (l : list (Z * Z)) : Z := Z.of_nat (length l).
+
+Definition check_sort_output (inp out : list (Z * Z)) : bool :=
+  perm_check inp out &&
+  match IsSorted (len out) (hash_of out) (item_of out) Z.eqb with Ok true => true | _ => false end.
+
+Theorem check_sort_output_sound inp out : check_sort_output inp out = true ->
+  Permutation inp out /\ sorted_spec (len out) (hash_of out) (item_of out) Z.eqb.
+Proof.
+  unfold check_sort_output. intros H. apply andb_true_iff in H. destruct H as [P S]. split.
+  - apply perm_check_iff. exact P.
+  - apply IsSorted_true_spec; [unfold len; lia|apply Zeqb_equivalence|].
+    destruct (IsSorted _ _ _ _) as [[|]| | |]; try discriminate. reflexivity.
+Qed.
+
+(* non-vacuity: a concrete arrangement with a hash collision (items 1,1,2 share hash 3; item 5 at 2^64-1) *)
+Definition ex_arr : list (Z * Z) := [(3, 1); (3, 1); (3, 2); (7, 4); (18446744073709551615, 5); (18446744073709551615, 5)].
+Example ex_sorted : IsSorted (len ex_arr) (hash_of ex_arr) (item_of ex_arr) Z.eqb = Ok true.
+Proof. vm_compute. reflexivity. Qed.
+Example ex_find : Find (len ex_arr) (hash_of ex_arr) (item_of ex_arr) Z.eqb 3 2 = Ok (2, true).
+Proof. vm_compute. reflexivity. Qed.
+Example ex_bounds : GetBounds (len ex_arr) (hash_of ex_arr) (item_of ex_arr) Z.eqb 3 1 = Ok (0, 2).
+Proof. vm_compute. reflexivity. Qed.
+Example ex_bounds_absent : GetBounds (len ex_arr) (hash_of ex_arr) (item_of ex_arr) Z.eqb 3 9 = Ok (3, 3).
+Proof. vm_compute. reflexivity. Qed.
+Example ex_unsorted : IsSorted 3 (hash_of [(3, 1); (3, 2); (3, 1)]) (item_of [(3, 1); (3, 2); (3, 1)]) Z.eqb = Ok false.
+Proof. vm_compute. reflexivity. Qed.
+Example ex_check : check_sort_output [(7, 4); (3, 1); (3, 2); (3, 1)] [(3, 1); (3, 1); (3, 2); (7, 4)] = true.
+Proof. vm_compute. reflexivity. Qed.
